@@ -117,6 +117,33 @@ def _is_tulz_fn(fn):
     return "tulz::" in fn
 
 
+def _is_library_frame(fn, loc):
+    """Code of the C++ runtime / standard library itself (it acts on behalf of whoever called it)."""
+    name = _own_name(fn)
+    return name.startswith(("std::", "__gnu_cxx::", "operator new", "operator delete", "decltype", "void std::", "bool std::")) or " std::" in name[:40] or loc.startswith("/usr/")
+
+
+def caller_is_tulz(frames, stack_frames):
+    """frames: the (inlined) frames of the access itself; stack_frames: the frames of the call sites above it, innermost
+    first. The access belongs to the first frame that is not library code: tulz code -> True, harness / scheduler -> False."""
+    root = str(common.REPO)
+    for fn, loc in list(frames) + list(stack_frames):
+        if loc.startswith(root + "/include/") or loc.startswith(root + "/src/"):
+            return True
+        if _is_library_frame(fn, loc):
+            continue
+        return _is_tulz_fn(fn)
+    return False
+
+
+def caller_site(frames, stack_frames):
+    root = str(common.REPO)
+    for fn, loc in list(frames) + list(stack_frames):
+        if loc.startswith(root + "/"):
+            return "%s %s" % (loc[len(root) + 1:].split(" ")[0], fn.split("(")[0][-60:])
+    return None
+
+
 def in_tulz(frames):
     """A site is tulz code if some (inlined) frame lies in the repository's sources, or is a tulz:: function
     (implicit destructors and template instantiations carry standard-library file names)."""
@@ -172,6 +199,8 @@ def check(pid, tier, seed):
                 if r.get("e") == "Race":
                     pcs.add(r["pc1"])
                     pcs.add(r["pc2"])
+                    pcs.update(r.get("s1", []))
+                    pcs.update(r.get("s2", []))
                     found.append((x, r))
                 elif r.get("e") == "Crash" and "Assertion" not in r.get("stderr", ""):
                     pass
@@ -179,8 +208,15 @@ def check(pid, tier, seed):
         per_component[comp] = per_component.get(comp, 0) + len(cfgs)
         for x, r in found:
             f1, f2 = sym.get(r["pc1"], []), sym.get(r["pc2"], [])
-            if in_tulz(f1) and in_tulz(f2):
-                key = tuple(sorted([site(f1) + (" [write]" if r["w1"] else " [read]"), site(f2) + (" [write]" if r["w2"] else " [read]")]))
+            st1 = [fr for p in r.get("s1", []) for fr in sym.get(p, [])]
+            st2 = [fr for p in r.get("s2", []) for fr in sym.get(p, [])]
+            # a site is tulz's if its own frames say so, or if it is library code that was called (through library code only) by tulz code
+            t1 = in_tulz(f1) or caller_is_tulz(f1, st1)
+            t2 = in_tulz(f2) or caller_is_tulz(f2, st2)
+            if t1 and t2:
+                n1 = site(f1) if in_tulz(f1) else "%s via %s" % (caller_site(f1, st1), site(f1))
+                n2 = site(f2) if in_tulz(f2) else "%s via %s" % (caller_site(f2, st2), site(f2))
+                key = tuple(sorted([n1 + (" [write]" if r["w1"] else " [read]"), n2 + (" [write]" if r["w2"] else " [read]")]))
                 if key not in races:
                     races[key] = {"component": comp, "cfg": cfgs.get(x), "id": x, "threads": [r["t1"], r["t2"]], "count": 0}
                 races[key]["count"] += 1
